@@ -489,10 +489,12 @@ class Client(ClientLike):
         was_paused = [mt for mt in msg_list if mt in self.paused_subscribed_types]
 
         self.subscribe(msg_list)
-        yield
-        self.unsubscribe([mt for mt in msg_list if mt not in was_paused])
-        if was_paused:
-            self.pause_subscription(was_paused)
+        try:
+            yield
+        finally:
+            self.unsubscribe([mt for mt in msg_list if mt not in was_paused])
+            if was_paused:
+                self.pause_subscription(was_paused)
 
     @contextmanager
     def paused_subscription_context(self, msg_list: Iterable[int]):
@@ -516,8 +518,10 @@ class Client(ClientLike):
         msg_list = pause_list
 
         self.pause_subscription(msg_list)
-        yield
-        self.resume_subscription(msg_list)
+        try:
+            yield
+        finally:
+            self.resume_subscription(msg_list)
 
     @requires_connection
     def send_signal(
